@@ -154,7 +154,10 @@ class Ser:
     """Serializer.  `share=True` emits a Coq Definition for every repeated non-leaf node so that
     DAG sharing does not blow up the text; `defs` is the list of (name, body)."""
 
-    def __init__(self, ctx=None, prefix="n", share=True):
+    def __init__(self, ctx=None, prefix="n", share=True, refvalue_terminal=False):
+        # refvalue_terminal: serialise ReferenceValue(f) as its own terminal `Term (50 + kind f) id refshape`
+        # (needed when the reference value differs from the physical value, i.e. non-identity pullbacks)
+        self.refvalue_terminal = refvalue_terminal
         self.ctx = ctx or Ctx()
         self.prefix = prefix
         self.share = share
@@ -286,6 +289,9 @@ class Ser:
             dim = f.ufl_shape[-1] if n == "Div" else f.ufl_shape[0]
             return f"({n} {self._expr(f)} {dim})"
         if n == "ReferenceValue":
+            if self.refvalue_terminal:
+                kind, tid, _sh, _ = self.ctx.term(ops[0])
+                return f"(Term {50 + kind} {tid} {natlist(e.ufl_shape)})"
             return f"(RefValue {self._expr(ops[0])} {natlist(e.ufl_shape)})"
         raise Unsupported(f"node {n}")
 
